@@ -94,7 +94,58 @@ fn select(points: &[Point], rng: &mut Rng, all: bool, budget: usize) -> Vec<Poin
     idx.into_iter().map(|i| points[i].clone()).collect()
 }
 
-fn check_point(sc: &Scenario, pt: &Point, stats: &mut crate::world::Stats) -> Option<Violation> {
+/// run the history in a child process that calls _exit(137) inside the failpoint at (op, k); returns the
+/// key/value dump of what it left on disk
+fn real_kill_image(sc: &Scenario, pt: &Point) -> Result<std::collections::BTreeMap<String, String>, String> {
+    let dir = crate::inst::fresh_dir("c04-kill");
+    let case_path = dir.with_extension("case.json");
+    std::fs::write(&case_path, serde_json::to_string(&case_of(sc)).unwrap_or_default()).map_err(|e| e.to_string())?;
+    let exe = std::env::current_exe().map_err(|e| e.to_string())?;
+    let st = std::process::Command::new(exe)
+        .args(["c04-child", &case_path.to_string_lossy(), &pt.op.to_string(), &pt.k.to_string(), &dir.to_string_lossy()])
+        .stdout(std::process::Stdio::null())
+        .stderr(std::process::Stdio::null())
+        .status()
+        .map_err(|e| e.to_string())?;
+    let _ = std::fs::remove_file(&case_path);
+    if st.code() != Some(137) {
+        let _ = std::fs::remove_dir_all(&dir);
+        return Err(format!("child did not die at the crash point: {:?}", st));
+    }
+    let dump = crate::props::c10::dump_dir(&dir);
+    let _ = std::fs::remove_dir_all(&dir);
+    Ok(dump)
+}
+
+/// `sim c04-child <case> <op> <k> <dir>`: execute the history on `dir` and die for real at write k of op
+pub fn child_main(case_path: &str, op_idx: usize, k: usize, dir: &str) -> i32 {
+    let Ok(s) = std::fs::read_to_string(case_path) else { return 2 };
+    let Ok(case) = serde_json::from_str::<Value>(&s) else { return 2 };
+    let sc = scenario_of(&case);
+    setup(&sc);
+    brc20_prog::verif::simhash::set_seed(sc.hash_seed);
+    let Ok(mut inst) = Instance::open(std::path::Path::new(dir)) else { return 2 };
+    inst.hash_seed = Some(sc.hash_seed);
+    let mut w = World::new(inst, sc.config.clone());
+    for (i, op) in sc.ops.iter().enumerate().take(op_idx) {
+        w.exec(i, op);
+    }
+    let hits = Rc::new(RefCell::new(0usize));
+    let h2 = hits.clone();
+    brc20_prog::verif::set_failpoint(Some(Box::new(move |_site| {
+        let mut h = h2.borrow_mut();
+        if *h >= k {
+            // no destructors, no flush: the process is gone
+            unsafe { libc::_exit(137) };
+        }
+        *h += 1;
+        Ok(())
+    })));
+    w.exec(op_idx, &sc.ops[op_idx]);
+    0
+}
+
+fn check_point(sc: &Scenario, pt: &Point, stats: &mut crate::world::Stats, validate_kill: bool) -> Option<Violation> {
     let mut b = World::new(Instance::fresh_seeded("c04-crash", sc.hash_seed), sc.config.clone());
     for (i, op) in sc.ops.iter().enumerate().take(pt.op) {
         b.exec(i, op);
@@ -125,6 +176,24 @@ fn check_point(sc: &Scenario, pt: &Point, stats: &mut crate::world::Stats) -> Op
     // the process is dead: only the directory survives
     let uni = b.uni.clone();
     b.inst.close();
+    if validate_kill {
+        // crash-model validation: a child process that really dies (_exit inside the failpoint) at the same
+        // write must leave the same key/value content in every table
+        let image = crate::props::c10::dump_dir(&b.inst.dir);
+        match real_kill_image(sc, pt) {
+            Ok(killed) => {
+                stats.bump("real_kill_images_compared");
+                if killed != image {
+                    let mut keys: Vec<&String> = image.keys().chain(killed.keys()).collect();
+                    keys.sort();
+                    keys.dedup();
+                    let diffs: Vec<Value> = keys.iter().filter(|k| image.get(**k) != killed.get(**k)).take(4).map(|k| json!({"row": k, "simulated": image.get(*k).map(|s| s.len()), "real_kill": killed.get(*k).map(|s| s.len())})).collect();
+                    return Some(Violation::new("harness/crash-model-differs-from-real-kill", json!({"crash": {"op": pt.op, "write_index": pt.k, "site": pt.site}, "rows": diffs})));
+                }
+            }
+            Err(e) => return Some(Violation::new("harness/real-kill-child", json!({"error": e}))),
+        }
+    }
     if let Err(e) = b.inst.reopen() {
         return Some(Violation::new(format!("cannot-reopen-after-crash/{}", pt.site), detail(json!({"error": e}))));
     }
@@ -264,6 +333,8 @@ impl Prop for C04 {
         v["select_seed"] = json!(rng.derive("select").next());
         v["all_points"] = json!(tier == Tier::Thorough);
         v["budget"] = json!(if tier == Tier::Quick { 36 } else { 100000 });
+        // every n-th crash point is cross-checked against a real process kill
+        v["real_kill_every"] = json!(if tier == Tier::Quick { 12 } else { 9 });
         v
     }
     fn rule(&self) -> String {
@@ -310,7 +381,8 @@ impl Prop for C04 {
         for pt in &selected {
             stats.bump("crash_images");
             sites.insert(pt.site);
-            if let Some(mut v) = check_point(&sc, pt, &mut stats) {
+            let validate_kill = case["real_kill_every"].as_u64().map_or(false, |n| n > 0 && (pt.k as u64 + pt.op as u64) % n == 0);
+            if let Some(mut v) = check_point(&sc, pt, &mut stats, validate_kill) {
                 v.detail["only_point"] = json!([pt.op, pt.k]);
                 violation = Some(v);
                 break;
